@@ -5,10 +5,10 @@ cd /repo || exit 2
 if [ -n "$(git status --porcelain)" ]; then echo "/repo not clean"; exit 2; fi
 if git apply --check $P 2>/dev/null; then git apply $P
 elif git apply --3way $P >/dev/null 2>&1 && ! grep -rl '^<<<<<<<' --include=*.go . >/dev/null; then git reset -q
-elif git checkout -q -- . && patch -p1 --fuzz=3 -s < $P >/dev/null 2>&1; then find . -name '*.orig' -delete
-else git checkout -q -- .; echo "$P patch does not apply"; exit 2; fi
+elif git reset -q --hard HEAD && patch -p1 --fuzz=3 -s < $P >/dev/null 2>&1; then find . -name '*.orig' -delete
+else git reset -q --hard HEAD; echo "$P patch does not apply"; exit 2; fi
 git diff --quiet && { echo "$P applied to nothing"; exit 2; }
 cd /verif && timeout 1500 ./vcheck $C --tier $T > /tmp/try-$C-$$.out 2> /tmp/try-$C-$$.err; rc=$?
-git -C /repo checkout -- . ; git -C /repo clean -fdq
+git -C /repo reset -q --hard HEAD; git -C /repo clean -fdq
 echo "$P $C exit=$rc $(grep -c '^VIOLATION' /tmp/try-$C-$$.out) violation lines; $(grep -- '->' /tmp/try-$C-$$.err | head -3 | tr '\n' ' ' | cut -c1-400)"
 rm -f /tmp/try-$C-$$.out /tmp/try-$C-$$.err
